@@ -8,6 +8,8 @@ V = Path(__file__).resolve().parents[1]
 for log in sys.argv[1:]:
     for line in open(log):
         m = re.match(r"(/tmp/seed/(C\d+)(\w)/out/(\d+)): demo pristine=(\d+) patched=(\d+) \| check exit=(\d+) (.*?) \| (.*)", line)
+        if not m:  # re-test of an already kept seed
+            m = re.match(r"(/verif/seeded/(C\d+)-(\w)(\d+)): demo pristine=(\d+) patched=(\d+) \| check exit=(\d+) (.*?) \| (.*)", line)
         if not m:
             continue
         src, pid, tag, k, p, q, c, viol, tail = m.groups()
@@ -16,7 +18,8 @@ for log in sys.argv[1:]:
         dst = V / "seeded" / f"{pid}-{tag}{k}"
         dst.mkdir(parents=True, exist_ok=True)
         for f in ("patch.diff", "demo.py"):
-            shutil.copy(Path(src) / f, dst / f)
+            if Path(src).resolve() != dst.resolve():
+                shutil.copy(Path(src) / f, dst / f)
         meta = {}
         try:
             meta = json.load(open(Path(src) / "meta.json"))
